@@ -73,8 +73,21 @@ def drive(eng, max_iter, chunk=None):
     return done, (not cont)
 
 
+_KEPT = {}
+
+
+def kept_engine(kind):
+    """One engine object per kind kept for the life of the worker process and used again and again for scripts of other sizes
+    (fewer / more cells, species, samples than the run before): a released engine set up anew starts from a clean slate, and what
+    it returns holds exactly the new run.  (A third of the calls still take a brand new object.)"""
+    import random as _random
+    if kind not in _KEPT or _random.random() < 0.33:
+        _KEPT[kind] = engines.get(kind)
+    return _KEPT[kind]
+
+
 def run_script(kind, script, max_iter, finalize=True):
-    eng = engines.get(kind)
+    eng = kept_engine(kind) if finalize else engines.get(kind)
     eng.setup(script)
     _, complete = drive(eng, max_iter)
     out = eng.get_output()
